@@ -110,9 +110,13 @@ def m11():
                         .is_prefix_rebound_outside(*prefix_id, *namespace_id)
                 {""","""                if *namespace_id == self.xot.xml_namespace() {""")
 M['manual-ce9bdaf-every-xml-namespace-declaration-dropped']=('C10',m11)
+def m12():
+    edit('src/parse.rs',"""            if attribute_spans.iter().any(|(n, _, _)| *n == name_id) {""","""            if false && attribute_spans.iter().any(|(n, _, _)| *n == name_id) {""")
+M['manual-0462827-duplicate-attributes-by-expanded-name']=('C03',m12)
 os.makedirs('/verif/mutants',exist_ok=True)
 if not os.path.isdir(WT): sh(f"git -C /repo worktree add -q --detach {WT} HEAD")
 for name,(prop,fn) in M.items():
+    if len(sys.argv)>1 and sys.argv[1] not in name: continue
     reset(); fn()
     d=sh(f"cd {WT} && git diff -- src").stdout
     open(f'/verif/mutants/{name}.patch','w').write(d)
